@@ -4,6 +4,7 @@ import ObiVerif.Lemmas.FpArith
 import ObiVerif.Lemmas.FpShift
 import ObiVerif.Lemmas.FpMul
 import ObiVerif.Lemmas.FpDiv
+import ObiVerif.Lemmas.FpBits
 /-!
 # C20 — fixed-precision integers agree with exact arithmetic (property theorems)
 
@@ -234,6 +235,316 @@ set_option maxRecDepth 100000 in
 example : U256.WF ⟨0, 1, 0, 5⟩ ∧ U256.WF ⟨0, 0, 1, 3⟩ ∧ U256.toNat ⟨0, 0, 1, 3⟩ ≠ 0 ∧
     U256.div ⟨0, 1, 0, 5⟩ ⟨0, 0, 1, 3⟩ = some (.ok ⟨0, 0, 0, 18446744073709551613⟩) :=
   ⟨by decide, by decide, by decide, rfl⟩
+
+/-! # Completeness: one exactness theorem for every remaining exported method of `pkg/obifp`
+
+`grep '^func (u Uint' pkg/obifp/*.go` lists 38 methods on `Uint64`, 34 on `Uint128`, 25 on `Uint256`; together with
+the sections above every one of them has a theorem below (index in `lib/cfg/C20.py`). -/
+
+/-! ## `And` / `Or` / `Xor` / `Not`: the limb-wise operation is the bitwise operation on the value -/
+
+theorem u64_and_exact (u v : U64) (hu : u.WF) (hv : v.WF) :
+    (U64.and u v).WF ∧ (U64.and u v).toNat = Nat.land u.toNat v.toNat := ⟨land_lt_W hu hv, rfl⟩
+theorem u64_or_exact (u v : U64) (hu : u.WF) (hv : v.WF) :
+    (U64.or u v).WF ∧ (U64.or u v).toNat = Nat.lor u.toNat v.toNat := ⟨lor_lt_W hu hv, rfl⟩
+theorem u64_xor_exact (u v : U64) (hu : u.WF) (hv : v.WF) :
+    (U64.xor u v).WF ∧ (U64.xor u v).toNat = Nat.xor u.toNat v.toNat := ⟨xor_lt_W hu hv, rfl⟩
+/-- `^x` is the complement to `2^64 - 1` -/
+theorem u64_not_exact (u : U64) :
+    (U64.not u).WF ∧ (U64.not u).toNat = W - 1 - u.toNat := ⟨not64_lt_W _, rfl⟩
+
+theorem u128_and_exact (u v : U128) (hu : u.WF) (hv : v.WF) :
+    (U128.and u v).WF ∧ (U128.and u v).toNat = Nat.land u.toNat v.toNat := U128.and_spec u v hu hv
+theorem u128_or_exact (u v : U128) (hu : u.WF) (hv : v.WF) :
+    (U128.or u v).WF ∧ (U128.or u v).toNat = Nat.lor u.toNat v.toNat := U128.or_spec u v hu hv
+theorem u128_xor_exact (u v : U128) (hu : u.WF) (hv : v.WF) :
+    (U128.xor u v).WF ∧ (U128.xor u v).toNat = Nat.xor u.toNat v.toNat := U128.xor_spec u v hu hv
+theorem u128_not_exact (u : U128) (hu : u.WF) :
+    (U128.not u).WF ∧ (U128.not u).toNat = W * W - 1 - u.toNat := U128.not_spec u hu
+
+theorem u256_and_exact (u v : U256) (hu : u.WF) (hv : v.WF) :
+    (U256.and u v).WF ∧ (U256.and u v).toNat = Nat.land u.toNat v.toNat := U256.and_spec u v hu hv
+theorem u256_or_exact (u v : U256) (hu : u.WF) (hv : v.WF) :
+    (U256.or u v).WF ∧ (U256.or u v).toNat = Nat.lor u.toNat v.toNat := U256.or_spec u v hu hv
+theorem u256_xor_exact (u v : U256) (hu : u.WF) (hv : v.WF) :
+    (U256.xor u v).WF ∧ (U256.xor u v).toNat = Nat.xor u.toNat v.toNat := U256.xor_spec u v hu hv
+theorem u256_not_exact (u : U256) (hu : u.WF) :
+    (U256.not u).WF ∧ (U256.not u).toNat = W ^ 4 - 1 - u.toNat := U256.not_spec u hu
+
+/-- hypotheses satisfiable on a value with bits in every limb -/
+example : U256.WF ⟨12, 10, 6, 5⟩ ∧ U256.WF ⟨10, 12, 3, 9⟩ ∧
+    U256.and ⟨12, 10, 6, 5⟩ ⟨10, 12, 3, 9⟩ = ⟨8, 8, 2, 1⟩ ∧ U256.or ⟨12, 10, 6, 5⟩ ⟨10, 12, 3, 9⟩ = ⟨14, 14, 7, 13⟩ ∧
+    U256.xor ⟨12, 10, 6, 5⟩ ⟨10, 12, 3, 9⟩ = ⟨6, 6, 5, 12⟩ ∧
+    U128.not ⟨1, 0⟩ = ⟨18446744073709551614, 18446744073709551615⟩ := ⟨by decide, by decide, rfl, rfl, rfl, rfl⟩
+
+/-! ## `Zero` / `MaxValue` / `IsZero` -/
+
+theorem u64_zero_exact (u : U64) : (U64.zero u).WF ∧ (U64.zero u).toNat = 0 := ⟨W_pos, rfl⟩
+theorem u128_zero_exact (u : U128) : (U128.zero u).WF ∧ (U128.zero u).toNat = 0 :=
+  ⟨⟨W_pos, W_pos⟩, by unfold U128.zero U128.toNat; decide⟩
+theorem u256_zero_exact (u : U256) : (U256.zero u).WF ∧ (U256.zero u).toNat = 0 :=
+  ⟨⟨W_pos, W_pos, W_pos, W_pos⟩, by unfold U256.zero U256.toNat; decide⟩
+
+/-- `MaxValue` is `2^64 - 1`, the largest well-formed value -/
+theorem u64_maxValue_exact (u : U64) : (U64.maxValue u).WF ∧ (U64.maxValue u).toNat = W - 1 ∧
+    ∀ v : U64, v.WF → v.toNat ≤ (U64.maxValue u).toNat := by
+  refine ⟨max_lt_W, rfl, ?_⟩
+  intro v hv; unfold U64.WF at hv; unfold U64.toNat U64.maxValue; simp only [W] at *; omega
+theorem u128_maxValue_exact (u : U128) : (U128.maxValue u).WF ∧ (U128.maxValue u).toNat = W * W - 1 ∧
+    ∀ v : U128, v.WF → v.toNat ≤ (U128.maxValue u).toNat := by
+  refine ⟨⟨max_lt_W, max_lt_W⟩, by unfold U128.maxValue U128.toNat; decide, ?_⟩
+  intro v hv; obtain ⟨h1, h0⟩ := hv; unfold U128.toNat U128.maxValue; simp only [W] at *; omega
+theorem u256_maxValue_exact (u : U256) : (U256.maxValue u).WF ∧ (U256.maxValue u).toNat = W ^ 4 - 1 ∧
+    ∀ v : U256, v.WF → v.toNat ≤ (U256.maxValue u).toNat := by
+  refine ⟨⟨max_lt_W, max_lt_W, max_lt_W, max_lt_W⟩, by unfold U256.maxValue U256.toNat; decide, ?_⟩
+  intro v hv; obtain ⟨h3, h2, h1, h0⟩ := hv; unfold U256.toNat U256.maxValue; simp only [W] at *; omega
+
+theorem u64_isZero_exact (u : U64) : U64.isZero u = true ↔ u.toNat = 0 := by
+  unfold U64.isZero U64.toNat; simp
+theorem u128_isZero_exact (u : U128) : U128.isZero u = true ↔ u.toNat = 0 := by
+  unfold U128.isZero U128.toNat
+  simp only [Bool.and_eq_true, beq_iff_eq, W]
+  omega
+/-- (no well-formedness hypothesis is needed for `IsZero`) -/
+theorem u256_isZero_exact (u : U256) : U256.isZero u = true ↔ u.toNat = 0 := by
+  unfold U256.isZero U256.toNat
+  simp only [Bool.and_eq_true, beq_iff_eq, W]
+  omega
+
+/-! ## Casts: widening preserves the value; narrowing keeps exactly the low limbs (`value mod 2^target`), hence
+preserves every value that fits; the Go `log.Warnf` condition (some dropped limb `≠ 0`) is exactly "does not fit".
+No cast panics. -/
+
+theorem u64_toU64_exact (u : U64) : U64.toU64 u = u := rfl
+theorem u64_toU128_exact (u : U64) (hu : u.WF) : (U64.toU128 u).WF ∧ (U64.toU128 u).toNat = u.toNat := by
+  unfold U64.WF at hu
+  exact ⟨⟨W_pos, hu⟩, by unfold U64.toU128 U128.toNat U64.toNat; simp only [W]; omega⟩
+theorem u64_toU256_exact (u : U64) (hu : u.WF) : (U64.toU256 u).WF ∧ (U64.toU256 u).toNat = u.toNat := by
+  unfold U64.WF at hu
+  exact ⟨⟨W_pos, W_pos, W_pos, hu⟩, by unfold U64.toU256 U256.toNat U64.toNat; simp only [W]; omega⟩
+theorem u64_asUint64_exact (u : U64) : U64.asUint64 u = u.toNat := rfl
+theorem u64_set64_exact (u : U64) (v : Nat) (hv : v < W) : (U64.set64 u v).WF ∧ (U64.set64 u v).toNat = v :=
+  ⟨hv, rfl⟩
+
+theorem u128_toU64_exact (u : U128) (hu : u.WF) :
+    (U128.toU64 u).WF ∧ (U128.toU64 u).toNat = u.toNat % W ∧
+      (u.toNat < W → (U128.toU64 u).toNat = u.toNat) ∧ (u.toNat < W ↔ u.w1 = 0) := by
+  obtain ⟨h1, h0⟩ := hu
+  unfold U128.toU64 U64.WF U64.toNat U128.toNat
+  simp only [W] at *
+  omega
+theorem u128_toU128_exact (u : U128) : U128.toU128 u = u := rfl
+theorem u128_toU256_exact (u : U128) (hu : u.WF) : (U128.toU256 u).WF ∧ (U128.toU256 u).toNat = u.toNat := by
+  obtain ⟨h1, h0⟩ := hu
+  exact ⟨⟨W_pos, W_pos, h1, h0⟩, by unfold U128.toU256 U256.toNat U128.toNat; simp only [W]; omega⟩
+/-- `AsUint64` is the value modulo `2^64` (the low limb), i.e. the value itself when it fits -/
+theorem u128_asUint64_exact (u : U128) (hu : u.WF) :
+    U128.asUint64 u = u.toNat % W ∧ (u.toNat < W → U128.asUint64 u = u.toNat) := by
+  obtain ⟨h1, h0⟩ := hu
+  unfold U128.asUint64 U128.toNat
+  simp only [W] at *
+  omega
+theorem u128_set64_exact (u : U128) (v : Nat) (hv : v < W) : (U128.set64 u v).WF ∧ (U128.set64 u v).toNat = v :=
+  ⟨⟨W_pos, hv⟩, by unfold U128.set64 U128.toNat; simp only [W]; omega⟩
+
+theorem u256_toU64_exact (u : U256) (hu : u.WF) :
+    (U256.toU64 u).WF ∧ (U256.toU64 u).toNat = u.toNat % W ∧
+      (u.toNat < W → (U256.toU64 u).toNat = u.toNat) ∧ (u.toNat < W ↔ u.w3 = 0 ∧ u.w2 = 0 ∧ u.w1 = 0) := by
+  obtain ⟨h3, h2, h1, h0⟩ := hu
+  unfold U256.toU64 U64.WF U64.toNat U256.toNat
+  simp only [W] at *
+  omega
+theorem u256_toU128_exact (u : U256) (hu : u.WF) :
+    (U256.toU128 u).WF ∧ (U256.toU128 u).toNat = u.toNat % (W * W) ∧
+      (u.toNat < W * W → (U256.toU128 u).toNat = u.toNat) ∧ (u.toNat < W * W ↔ u.w3 = 0 ∧ u.w2 = 0) := by
+  obtain ⟨h3, h2, h1, h0⟩ := hu
+  unfold U256.toU128 U128.WF U128.toNat U256.toNat
+  simp only [W] at *
+  omega
+theorem u256_toU256_exact (u : U256) : U256.toU256 u = u := rfl
+theorem u256_asUint64_exact (u : U256) (hu : u.WF) :
+    U256.asUint64 u = u.toNat % W ∧ (u.toNat < W → U256.asUint64 u = u.toNat) := by
+  obtain ⟨h3, h2, h1, h0⟩ := hu
+  unfold U256.asUint64 U256.toNat
+  simp only [W] at *
+  omega
+theorem u256_set64_exact (u : U256) (v : Nat) (hv : v < W) : (U256.set64 u v).WF ∧ (U256.set64 u v).toNat = v :=
+  ⟨⟨W_pos, W_pos, W_pos, hv⟩, by unfold U256.set64 U256.toNat; simp only [W]; omega⟩
+
+/-- narrowing then widening a value that fits is the identity; a value that does not fit is truncated -/
+example : U256.WF ⟨0, 0, 7, 9⟩ ∧ (U256.toU128 ⟨0, 0, 7, 9⟩).toU256 = ⟨0, 0, 7, 9⟩ ∧
+    U256.toU64 ⟨1, 2, 3, 4⟩ = ⟨4⟩ ∧ U256.toU128 ⟨1, 2, 3, 4⟩ = ⟨3, 4⟩ := ⟨by decide, rfl, rfl, rfl⟩
+
+/-! ## `unint.go`: `ZeroUint` / `OneUint` / `From64` at the three widths -/
+
+theorem zeroUint_exact : zeroUint64.toNat = 0 ∧ zeroUint128.toNat = 0 ∧ zeroUint256.toNat = 0 ∧
+    zeroUint64.WF ∧ zeroUint128.WF ∧ zeroUint256.WF := ⟨rfl, by decide, by decide, by decide, by decide, by decide⟩
+theorem oneUint_exact : oneUint64.toNat = 1 ∧ oneUint128.toNat = 1 ∧ oneUint256.toNat = 1 ∧
+    oneUint64.WF ∧ oneUint128.WF ∧ oneUint256.WF := ⟨rfl, by decide, by decide, by decide, by decide, by decide⟩
+theorem from64_exact (v : Nat) (hv : v < W) :
+    (from64_64 v).toNat = v ∧ (from64_128 v).toNat = v ∧ (from64_256 v).toNat = v ∧
+      (from64_64 v).WF ∧ (from64_128 v).WF ∧ (from64_256 v).WF :=
+  ⟨(u64_set64_exact _ v hv).2, (u128_set64_exact _ v hv).2, (u256_set64_exact _ v hv).2,
+   (u64_set64_exact _ v hv).1, (u128_set64_exact _ v hv).1, (u256_set64_exact _ v hv).1⟩
+
+/-! ## `Equals` / `LessThan` / `LessThanOrEqual` / `GreaterThan` / `GreaterThanOrEqual` and `Cmp64` -/
+
+theorem u64_equals_exact (u v : U64) : U64.equals u v = true ↔ u.toNat = v.toNat := by
+  unfold U64.equals; rw [U64.cmp_eq_cmp3]; exact cmp3_eq _ _
+theorem u64_lessThan_exact (u v : U64) : U64.lessThan u v = true ↔ u.toNat < v.toNat := by
+  unfold U64.lessThan; rw [U64.cmp_eq_cmp3]; exact cmp3_lt _ _
+theorem u64_greaterThan_exact (u v : U64) : U64.greaterThan u v = true ↔ v.toNat < u.toNat := by
+  unfold U64.greaterThan; rw [U64.cmp_eq_cmp3]; exact cmp3_gt _ _
+theorem u64_lessThanOrEqual_exact (u v : U64) : U64.lessThanOrEqual u v = true ↔ u.toNat ≤ v.toNat := by
+  unfold U64.lessThanOrEqual U64.greaterThan; rw [U64.cmp_eq_cmp3]; exact cmp3_le _ _
+theorem u64_greaterThanOrEqual_exact (u v : U64) : U64.greaterThanOrEqual u v = true ↔ v.toNat ≤ u.toNat := by
+  unfold U64.greaterThanOrEqual U64.lessThan; rw [U64.cmp_eq_cmp3]; exact cmp3_ge _ _
+
+theorem u128_equals_exact (u v : U128) (hu : u.WF) (hv : v.WF) : U128.equals u v = true ↔ u.toNat = v.toNat := by
+  unfold U128.equals; rw [U128.cmp_eq_cmp3 u v hu hv]; exact cmp3_eq _ _
+theorem u128_lessThan_exact (u v : U128) (hu : u.WF) (hv : v.WF) : U128.lessThan u v = true ↔ u.toNat < v.toNat := by
+  unfold U128.lessThan; rw [U128.cmp_eq_cmp3 u v hu hv]; exact cmp3_lt _ _
+theorem u128_greaterThan_exact (u v : U128) (hu : u.WF) (hv : v.WF) :
+    U128.greaterThan u v = true ↔ v.toNat < u.toNat := by
+  unfold U128.greaterThan; rw [U128.cmp_eq_cmp3 u v hu hv]; exact cmp3_gt _ _
+theorem u128_lessThanOrEqual_exact (u v : U128) (hu : u.WF) (hv : v.WF) :
+    U128.lessThanOrEqual u v = true ↔ u.toNat ≤ v.toNat := by
+  unfold U128.lessThanOrEqual U128.greaterThan; rw [U128.cmp_eq_cmp3 u v hu hv]; exact cmp3_le _ _
+theorem u128_greaterThanOrEqual_exact (u v : U128) (hu : u.WF) (hv : v.WF) :
+    U128.greaterThanOrEqual u v = true ↔ v.toNat ≤ u.toNat := by
+  unfold U128.greaterThanOrEqual U128.lessThan; rw [U128.cmp_eq_cmp3 u v hu hv]; exact cmp3_ge _ _
+/-- `Cmp64` compares the 128-bit value with a 64-bit word -/
+theorem u128_cmp64_exact (u : U128) (v : Nat) (hu : u.WF) (hv : v < W) :
+    U128.cmp64 u v = if u.toNat < v then -1 else if u.toNat = v then 0 else 1 := by
+  obtain ⟨h1, h0⟩ := hu
+  unfold U128.cmp64 U128.toNat
+  simp only [W] at *
+  repeat' split
+  all_goals first | rfl | omega
+
+theorem u256_equals_exact (u v : U256) (hu : u.WF) (hv : v.WF) : U256.equals u v = true ↔ u.toNat = v.toNat := by
+  unfold U256.equals; rw [U256.cmp_eq_cmp3 u v hu hv]; exact cmp3_eq _ _
+theorem u256_lessThan_exact (u v : U256) (hu : u.WF) (hv : v.WF) : U256.lessThan u v = true ↔ u.toNat < v.toNat :=
+  U256.lessThan_iff u v hu hv
+theorem u256_greaterThan_exact (u v : U256) (hu : u.WF) (hv : v.WF) :
+    U256.greaterThan u v = true ↔ v.toNat < u.toNat := U256.greaterThan_iff u v hu hv
+theorem u256_lessThanOrEqual_exact (u v : U256) (hu : u.WF) (hv : v.WF) :
+    U256.lessThanOrEqual u v = true ↔ u.toNat ≤ v.toNat := U256.lessThanOrEqual_iff u v hu hv
+theorem u256_greaterThanOrEqual_exact (u v : U256) (hu : u.WF) (hv : v.WF) :
+    U256.greaterThanOrEqual u v = true ↔ v.toNat ≤ u.toNat := U256.greaterThanOrEqual_iff u v hu hv
+
+/-! ## carry forms of `Uint64`: `Add64` / `Sub64` / `Mul64` / `LeftShift64` / `RightShift64`
+
+`bits.Add64` / `bits.Sub64` document the carry input as "must be 0 or 1; otherwise the behavior is undefined":
+that is the hypothesis `c ≤ 1`. -/
+
+/-- `value + carry * 2^64 = u + v + carryIn` -/
+theorem u64_add64_exact (u v : U64) (c : Nat) :
+    (U64.add64 u v c).1 + (U64.add64 u v c).2 * W = u.toNat + v.toNat + c ∧ (U64.add64 u v c).1 < W ∧
+      (u.WF → v.WF → c ≤ 1 → (U64.add64 u v c).2 ≤ 1) := by
+  unfold U64.add64 bitsAdd64 U64.toNat U64.WF
+  simp only [W]
+  omega
+/-- `u + borrow * 2^64 = value + v + borrowIn` -/
+theorem u64_sub64_exact (u v : U64) (c : Nat) (hu : u.WF) (hv : v.WF) (hc : c ≤ 1) :
+    u.toNat + (U64.sub64 u v c).2 * W = (U64.sub64 u v c).1 + v.toNat + c ∧ (U64.sub64 u v c).1 < W ∧
+      (U64.sub64 u v c).2 ≤ 1 := by
+  have := bitsSub64_spec hu hv hc
+  exact ⟨this.2.2, this.1, this.2.1⟩
+/-- `value + carry * 2^64 = u * v`: the double-width product -/
+theorem u64_mul64_exact (u v : U64) (hu : u.WF) (hv : v.WF) :
+    (U64.mul64 u v).1 + (U64.mul64 u v).2 * W = u.toNat * v.toNat ∧ (U64.mul64 u v).1 < W ∧
+      (U64.mul64 u v).2 < W := by
+  have b := mul_limb_le hu hv
+  unfold U64.mul64 bitsMul64 U64.toNat
+  generalize u.w0 * v.w0 = p at *
+  simp only [W] at *
+  omega
+
+/-- `LeftShift64(n, carryIn)` for every `n` and every carry-in word:
+* `n < 64`: `value + carry * 2^64 = w * 2^n + carryIn mod 2^n` (the low `n` bits of `carryIn` enter, the high `n`
+  bits of `w` leave) with `carry < 2^n`;
+* `64 ≤ n < 128`: `value = carryIn`, `carry = w * 2^(n-64) mod 2^64`;
+* `n ≥ 128`: `(0, 0)` (Go also logs a warning). -/
+theorem u64_leftShift64_exact (w n c : Nat) (hw : w < W) :
+    (n < 64 → (leftShift64 w n c).1 + (leftShift64 w n c).2 * W = w * 2 ^ n + c % 2 ^ n ∧
+        (leftShift64 w n c).1 < W ∧ (leftShift64 w n c).2 < 2 ^ n) ∧
+    (64 ≤ n → n < 128 → leftShift64 w n c = (c, w * 2 ^ (n - 64) % W)) ∧
+    (128 ≤ n → leftShift64 w n c = (0, 0)) :=
+  ⟨fun hn => leftShift64_small_any hn hw, fun h1 h2 => leftShift64_mid hw h1 h2, fun h => leftShift64_big h⟩
+
+/-- `RightShift64(n, carryIn)`:
+* `n < 64`: `value = w / 2^n + (the high n bits of carryIn, in place)`, `carry = (w mod 2^n) * 2^(64-n)`;
+* `64 ≤ n < 128`: `value = carryIn`, `carry = w / 2^(n-64)`;
+* `n ≥ 128`: `(0, 0)`. -/
+theorem u64_rightShift64_exact (w n c : Nat) (hw : w < W) (hc : c < W) :
+    (n < 64 → (rightShift64 w n c).1 = w / 2 ^ n + c / 2 ^ (64 - n) * 2 ^ (64 - n) ∧
+        (rightShift64 w n c).2 = w % 2 ^ n * 2 ^ (64 - n)) ∧
+    (64 ≤ n → n < 128 → rightShift64 w n c = (c, w / 2 ^ (n - 64))) ∧
+    (128 ≤ n → rightShift64 w n c = (0, 0)) :=
+  ⟨fun hn => rightShift64_small_any hn hw hc, fun h1 h2 => rightShift64_mid h1 h2, fun h => rightShift64_big h⟩
+
+example : leftShift64 9223372036854775809 1 3 = (3, 1) ∧ rightShift64 3 1 9223372036854775809 =
+    (9223372036854775809, 9223372036854775808) := ⟨rfl, rfl⟩
+
+/-! ## `Uint128.Div` / `Mod` / `Div64` / `Mod64` (wrappers of `QuoRem` / `QuoRem64`) and the panic condition -/
+
+theorem u128_div_exact (u v : U128) (hu : u.WF) (hv : v.WF) (hv0 : v.toNat ≠ 0) :
+    U128.div u v = .ok (U128.ofNat (u.toNat / v.toNat)) := by
+  unfold U128.div; rw [U128.quoRem_spec u v hu hv hv0]; rfl
+theorem u128_mod_exact (u v : U128) (hu : u.WF) (hv : v.WF) (hv0 : v.toNat ≠ 0) :
+    U128.mod u v = .ok (U128.ofNat (u.toNat % v.toNat)) := by
+  unfold U128.mod; rw [U128.quoRem_spec u v hu hv hv0]; rfl
+theorem u128_div64_exact (u : U128) (v : Nat) (hu : u.WF) (hv : v ≠ 0) :
+    U128.div64 u v = .ok (U128.ofNat (u.toNat / v)) := by
+  unfold U128.div64; rw [u128_quoRem64_exact u v hu hv]; rfl
+theorem u128_mod64_exact (u : U128) (v : Nat) (hu : u.WF) (hv : v ≠ 0) :
+    U128.mod64 u v = .ok (u.toNat % v) := by
+  unfold U128.mod64; rw [u128_quoRem64_exact u v hu hv]; rfl
+
+/-- Euclidean characterisation: `Div` and `Mod` return the unique `q`, `r` with `u = q * v + r ∧ r < v` -/
+theorem u128_div_mod_char (u v : U128) (hu : u.WF) (hv : v.WF) (hv0 : v.toNat ≠ 0) :
+    ∃ q r, U128.div u v = .ok q ∧ U128.mod u v = .ok r ∧ q.WF ∧ r.WF ∧
+      u.toNat = q.toNat * v.toNat + r.toNat ∧ r.toNat < v.toNat := by
+  refine ⟨_, _, u128_div_exact u v hu hv hv0, u128_mod_exact u v hu hv hv0, U128.ofNat_WF _, U128.ofNat_WF _, ?_, ?_⟩
+  · have hq : u.toNat / v.toNat < W * W := Nat.lt_of_le_of_lt (Nat.div_le_self _ _) (U128.toNat_lt hu)
+    have hr : u.toNat % v.toNat < W * W := Nat.lt_of_le_of_lt (Nat.mod_le _ _) (U128.toNat_lt hu)
+    rw [U128.toNat_ofNat hq, U128.toNat_ofNat hr, Nat.mul_comm]
+    exact (Nat.div_add_mod _ _).symm
+  · have hr : u.toNat % v.toNat < W * W := Nat.lt_of_le_of_lt (Nat.mod_le _ _) (U128.toNat_lt hu)
+    rw [U128.toNat_ofNat hr]
+    exact Nat.mod_lt _ (Nat.pos_of_ne_zero hv0)
+theorem u128_div64_mod64_char (u : U128) (v : Nat) (hu : u.WF) (hv : v ≠ 0) :
+    ∃ q r, U128.div64 u v = .ok q ∧ U128.mod64 u v = .ok r ∧ q.WF ∧
+      u.toNat = q.toNat * v + r ∧ r < v := by
+  refine ⟨_, _, u128_div64_exact u v hu hv, u128_mod64_exact u v hu hv, U128.ofNat_WF _, ?_,
+    Nat.mod_lt _ (Nat.pos_of_ne_zero hv)⟩
+  have hq : u.toNat / v < W * W := Nat.lt_of_le_of_lt (Nat.div_le_self _ _) (U128.toNat_lt hu)
+  rw [U128.toNat_ofNat hq, Nat.mul_comm]
+  exact (Nat.div_add_mod _ _).symm
+
+/-- a zero divisor is a panic (`bits.Div64` divide error) in all six division entry points; together with the
+`_exact` theorems: panic ⇔ `v = 0` -/
+theorem u128_quoRem64_zero (u : U128) :
+    U128.quoRem64 u 0 = .error () ∧ U128.div64 u 0 = .error () ∧ U128.mod64 u 0 = .error () := by
+  have h : U128.quoRem64 u 0 = .error () := by
+    unfold U128.quoRem64; rw [if_neg (Nat.not_lt_zero _)]; rfl
+  refine ⟨h, ?_, ?_⟩
+  · unfold U128.div64; rw [h]; rfl
+  · unfold U128.mod64; rw [h]; rfl
+theorem u128_quoRem_zero (u v : U128) (hv : v.WF) (hv0 : v.toNat = 0) :
+    U128.quoRem u v = .error () ∧ U128.div u v = .error () ∧ U128.mod u v = .error () := by
+  obtain ⟨k1, k0⟩ := hv
+  have e1 : v.w1 = 0 := by unfold U128.toNat at hv0; simp only [W] at *; omega
+  have e0 : v.w0 = 0 := by unfold U128.toNat at hv0; simp only [W] at *; omega
+  have h : U128.quoRem u v = .error () := by
+    unfold U128.quoRem; rw [if_pos e1, e0, (u128_quoRem64_zero u).1]; rfl
+  refine ⟨h, ?_, ?_⟩
+  · unfold U128.div; rw [h]; rfl
+  · unfold U128.mod; rw [h]; rfl
+
+example : U128.WF ⟨7, 5⟩ ∧ U128.div64 ⟨7, 5⟩ 3 = .ok ⟨2, 6148914691236517207⟩ ∧ U128.mod64 ⟨7, 5⟩ 3 = .ok 0 :=
+  ⟨by decide, rfl, rfl⟩
 
 /-! ## The well-formedness hypotheses are satisfiable on non-trivial values (and the model computes) -/
 
